@@ -500,6 +500,10 @@ static Case gen_edit() {
   std::string doc;
   if (vg::chance(1, 5)) doc = vg::pick<std::string>({"5e-1", "-0.5E+2", "[]", "{}", "[1,2]", "{\"a\":1}", "\"\\u00e9\\n\"", "null", "true", "false", "[null,true,false]", "0", "-1", "1.5", "{\"a\":{\"b\":[]}}"});
   else doc = render(gen_doc_tokens(2 + static_cast<int>(vg::scaled(9)), 3));
+  if (doc.size() > 400) { // the edit oracle is quadratic in the length and takes documents of up to 400 bytes: a rare longer one is replaced
+    ctx().exclude("generated edit base longer than 400 bytes (replaced by a fixed document)");
+    doc = "{\"a\":[1,2.5e-3,\"x\\n\"],\"b\":{}}";
+  }
   return Case("edit").S(doc);
 }
 
